@@ -1,4 +1,4 @@
-import Rare.Proofs.C14KeyCol
+import Rare.Proofs.C14Log
 import Rare.Gen.C14
 /-!
 # C14 – Renderers never crash and draw quantities proportionally within bounds
@@ -282,6 +282,67 @@ theorem heat_spark_no_panic_f64 {L2 L10 P2 P10 : F64 → F64} (h2 : LogLikeF64 L
     (∃ b, sparkWrite (f64Arith L2 L10 P2 P10) env (scale (f64Arith L2 L10 P2 P10) k val min max) = .ok b ∧ IsSparkGlyph b) :=
   ⟨(unitLaws_f64 h2 h10).heatWrite_cell env (scale_f64_unit h2 h10 k hv hmn hmx),
    (unitLaws_f64 h2 h10).sparkWrite_glyph env (scale_f64_unit h2 h10 k hv hmn hmx)⟩
+
+/-! ## the log scalers with Go's own `math.Log2` / `math.Log10` (`Model/C14Log.lean`): the exact integer cases
+
+The theorems above take the logarithms as parameters (`LogLikeF64`).  `goLog2F` / `goLog10F` are Go's implementations
+(`src/math/log.go`, `log10.go`, `frexp.go`: FreeBSD's `e_log.c`) repeated operation by operation on the software binary64 and
+compared with the real `math.Log*` bit for bit by the correspondence (op `log`).  `goArith` is the scaler arithmetic with
+them.  Every statement below is a finite table over ALL the powers an int64 can hold, evaluated by the kernel. -/
+
+/-- `math.Log2` of every power of two up to `2^63 = float64(MaxInt64)` is the exponent, exactly (`Frexp` gives `0.5`) -/
+theorem log2_pow2_exact (k : Nat) (hk : k < 64) : goLog2F (F64.ofInt ((2 : Int) ^ k)) = F64.ofInt (k : Int) := by
+  have h := pow2Table_ok
+  unfold pow2Table at h
+  rw [List.all_eq_true] at h
+  exact of_decide_eq_true (h k (List.mem_range.mpr hk))
+
+/-- `math.Log10` of every power of ten an int64 holds: `Ceil` is the exponent for all of them (so the upper end of a remapped
+range `[…, 10^k]` is `k`), and the value is the exponent EXACTLY for every `k` but 15 (`Log10(1e15) = 15 - 2^-49`) -/
+theorem log10_pow10_exact (k : Nat) (hk : k < 19) :
+    F64.ceil (goLog10F (F64.ofInt ((10 : Int) ^ k))) = F64.ofInt (k : Int) ∧
+    (k ≠ 15 → goLog10F (F64.ofInt ((10 : Int) ^ k)) = F64.ofInt (k : Int)) := by
+  have h := pow10Table_ok
+  unfold pow10Table at h
+  rw [List.all_eq_true] at h
+  have hk' := h k (List.mem_range.mpr hk)
+  rw [Bool.and_eq_true, Bool.or_eq_true] at hk'
+  refine ⟨of_decide_eq_true hk'.1, fun hne => ?_⟩
+  rcases hk'.2 with h15 | hd
+  · exact absurd (by simpa using h15) hne
+  · exact of_decide_eq_true hd
+
+/-- on the widest power-of-two range `[0 or 1, 2^62]` the log2 scale of `2^k` is `k/62`, correctly rounded, for every `k ≤ 62`
+(`math.Pow` is irrelevant to `Scale`: any `P2 P10`) -/
+theorem scale_log2_pow2_exact (P2 P10 : F64 → F64) (k : Nat) (hk : k < 63) (mn : Int) (hmn : mn = 0 ∨ mn = 1) :
+    scale (f64Arith goLog2F goLog10F P2 P10) .log2 ((2 : Int) ^ k) mn ((2 : Int) ^ 62) = F64.div (F64.ofInt (k : Int)) (F64.ofInt 62) := by
+  rw [scale_pow_irrelevant]
+  have h := scalePow2Table_ok
+  unfold scalePow2Table at h
+  rw [List.all_eq_true] at h
+  have hk' := h k (List.mem_range.mpr hk)
+  rw [List.all_eq_true] at hk'
+  exact of_decide_eq_true (hk' mn (by rcases hmn with rfl | rfl <;> simp))
+
+/-- on the widest power-of-ten range `[1, 10^18]` the log10 scale of `10^k` is `Log10(10^k)/18`, for every `k ≤ 18` -/
+theorem scale_log10_pow10_exact (P2 P10 : F64 → F64) (k : Nat) (hk : k < 19) :
+    scale (f64Arith goLog2F goLog10F P2 P10) .log10 ((10 : Int) ^ k) 1 ((10 : Int) ^ 18) =
+      F64.div (goLog10F (F64.ofInt ((10 : Int) ^ k))) (F64.ofInt 18) := by
+  rw [scale_pow_irrelevant]
+  have h := scalePow10Table_ok
+  unfold scalePow10Table at h
+  rw [List.all_eq_true] at h
+  exact of_decide_eq_true (h k (List.mem_range.mpr hk))
+
+/-- a documented quirk, not a violation (the value stays in `[0,1]` and monotone): on a log10 scale the maximum itself need not
+reach `1.0` – `Scale(10^15, 1, 10^15) = 1 - 2^-53` because `math.Log10(1e15) = 15 - 2^-49` while the remapped upper end is
+`Ceil = 15`; its heat cell is colour 14 of 0…15, not 15.  Every power of two reaches `1.0` on a log2 scale. -/
+theorem scale_log10_max_below_one :
+    scale goArith .log10 1000000000000000 1 1000000000000000 = ⟨0x3FEFFFFFFFFFFFFF, by decide⟩ ∧
+    bucket goArith 16 (scale goArith .log10 1000000000000000 1 1000000000000000) = 14 ∧
+    scale goArith .log2 4611686018427387904 1 4611686018427387904 = F64.one ∧
+    scale goArith .log10 1000 1 1000 = F64.one := by
+  decide +kernel
 
 /-! ## bars -/
 
